@@ -230,6 +230,7 @@ func runCheck(id, tier string, rest []string) int {
 	exit := 0
 	os.MkdirAll(filepath.Join(verifDir, "evidence", "replays"), 0o755)
 	seenKey := map[string]bool{}
+	knownCount := map[string]int{}
 	all := append([]*sym.Violation{}, plan.PipelineFailures...)
 	for _, r := range results {
 		if r == nil {
@@ -273,7 +274,10 @@ func runCheck(id, tier string, rest []string) int {
 		}
 		if kf := matchKnown(known, id, key); kf != nil {
 			knownHits = append(knownHits, v)
-			knownLines = append(knownLines, fmt.Sprintf("KNOWN-FINDING: property=%s %s [%s]", id, kf.What, key))
+			knownCount[kf.Key]++
+			if knownCount[kf.Key] == 1 {
+				knownLines = append(knownLines, fmt.Sprintf("KNOWN-FINDING: property=%s %s [first hit: %s]", id, kf.What, key))
+			}
 			continue
 		}
 		confirmed = append(confirmed, v)
